@@ -344,6 +344,35 @@ func markerScript(rng *rand.Rand) *Script {
 	return s
 }
 
+// markerScriptsAll: every marked statement of markerScript with every
+// terminator and every kind of tail (see markerScript).
+func markerScriptsAll() []*Script {
+	marked := []string{"T | where u == 'http://h'", "T | where u == \"it's\" and v == 'http://h'", "`a//b` | count", "T | where u == \"a\\\"//b\" | take 1", "T | extend w = strcat('x//', \"'//\")",
+		"let u = 'http://h'", "let u = \"it's //\"", "T | where a == 1 and `c//d` == \"'\" and e == 'f//g'"}
+	var out []*Script
+	for mi, m := range marked {
+		for ti, term := range []string{"; ", ";", ";\n", " ;\n", ";\t\n"} {
+			for tail := 0; tail < 4; tail++ {
+				s := &Script{}
+				if (mi+ti)%2 == 0 {
+					s.Stmts, s.Seps = append(s.Stmts, "T | count"), append(s.Seps, ";\n")
+				}
+				s.Stmts, s.Seps = append(s.Stmts, m), append(s.Seps, term)
+				switch tail {
+				case 1:
+					s.Stmts, s.Seps = append(s.Stmts, "T | where c == u"), append(s.Seps, []string{"", "\n"}[ti%2])
+				case 2:
+					s.Stmts, s.Seps = append(s.Stmts, "U\n| count"), append(s.Seps, "\n")
+				case 3:
+					s.Stmts, s.Seps = append(s.Stmts, marked[(mi+1)%5]), append(s.Seps, "")
+				}
+				out = append(out, s)
+			}
+		}
+	}
+	return out
+}
+
 // longScript: hundreds of statements, most of them spread over several lines,
 // several times the size of any line or read buffer.
 func longScript(rng *rand.Rand) *Script {
@@ -611,6 +640,7 @@ func run(c *mon.Custom) {
 	nRandom := len(scripts)
 	scripts = append(scripts, directedScripts()...)
 	scripts = append(scripts, repeatedFileScripts()...)
+	scripts = append(scripts, markerScriptsAll()...)
 	for i := 0; i < 2; i++ {
 		scripts = append(scripts, commentedScript(rng))
 	}
